@@ -59,6 +59,13 @@ theorem scopeWalk_back_eq_spec (r : Node) (hg : goodRoot r = true) :
     (walkRootB false r).Perm (ownedWalk r) :=
   (scopeWalk_back_perm false r).trans (by rw [scopeWalk_eq_spec_partial r hg])
 
+/-- **Explicit node lists.**  `r.walk(scope=True, asts=<children of r>)` excludes nothing of `r` itself (decorators, defaults,
+annotations, type-parameter bounds, the first iterable are walked) and still does not enter nested scopes: it yields
+exactly the nodes below `r` that belong to the scope of `r` or to the scope `r` is defined in. -/
+theorem scopeWalk_asts (r : Node) (hg : goodAsts r = true) : walkAsts false r = ownedAsts r := by
+  rw [walkAsts_eq false r hg]
+  exact List.filter_eq_self.mpr (fun _ _ => rfl)
+
 /-- **Replacement during the walk.**  If the consumer replaces nodes it is handed (`old i k` = the class node `i` had when
 it was popped), the walk of the final tree in which the rule for a node's children is the rule of the class the node has
 WHEN ITS CHILDREN ARE PUSHED (after the yield) is exactly the scope walk of the final tree: with `all=True` the decision to
@@ -196,6 +203,8 @@ keyword value, the lambda's default, the outer comprehension's first iterable an
 down are -/
 example : (walkRoot false tBig_f).map Node.id = [3, 4, 7, 10, 11, 12, 13, 14, 18, 19, 20, 23, 25, 26, 29, 36] := by decide
 example : (walkRootB false tBig_f).map Node.id = [25, 26, 36, 29, 18, 20, 23, 19, 11, 13, 14, 12, 10, 3, 7, 4] := by decide
+example : goodAsts tBig_f = true ∧ (walkAsts false tBig_f).map Node.id =
+    [2, 3, 4, 5, 6, 7, 8, 9, 10, 11, 12, 13, 14, 18, 19, 20, 23, 25, 26, 29, 36] := by decide
 /-- replacement: node 19 (`h`) was a comprehension when popped, node 26 a plain call: same walk -/
 example : (walkRootO (fun i k => if i = 26 then .other else if i = 19 then .comp else k) false tBig_f).map Node.id =
     (walkRoot false tBig_f).map Node.id := by decide
